@@ -38,7 +38,7 @@ fn('dsplib::window::_besseli0', W, serves=['C11', 'C05'], pure=True, extra_env=E
    post_facts=['I0_DEF(x)'],
    ensures=[('series', 'result == I0S(x)')], loops={1: {'unroll': 16}})
 
-fn(NS + 'kaiser', W, serves=['C11', 'C05'], pure=True, extra_env=ENV,
+fn(NS + 'kaiser', W, serves=['C11', 'C05'], pure=True, extra_env=ENV, param_names=('nw', 'beta'),
    lets={'k0': 'ghost_int("index")', 'NH': 'tdiv(nw + 1, 2)', 'OD': 'tmod(nw, 2)',
          'TT': 'If(k0 >= tdiv(nw + 1, 2) - tmod(nw, 2), k0 - (tdiv(nw + 1, 2) - tmod(nw, 2)), tdiv(nw + 1, 2) - 1 - k0)',
          'DD': '2 * If(k0 >= tdiv(nw + 1, 2) - tmod(nw, 2), k0 - (tdiv(nw + 1, 2) - tmod(nw, 2)), tdiv(nw + 1, 2) - 1 - k0) + 1 - tmod(nw, 2)'},
